@@ -18,19 +18,32 @@ META = {
     "all input vertices retained in order with first/last kept, added vertices strictly inside their edge, edge length "
     "and ring area (shoelace) preserved, geometry type and ring/part structure preserved by segmented for every kind, "
     "to_crs = identity on equal CRS / error without CRS / proj applied vertex by vertex to the optionally densified "
-    "geometry for an arbitrary proj.  Tied to /repo by an exact correspondence on dyadic inputs (vertex lists, loop "
-    "counts, all geometry kinds, to_crs with a stand-in exact projection) and by oracles on real outputs (max edge "
-    "length, retention, collinearity, area/length, vertex-by-vertex equality with a fresh pyproj Transformer, "
-    "there-and-back error).",
-    "note": "Trusted: Lean kernel + {propext, Classical.choice, Quot.sound}; shapely length/interpolate contract (EdgeOk) and "
-    "pyproj numerics are parameters (round-trip precision is sampled, not proved); IEEE rounding not modelled; "
-    "wrapdateline/check_and_fix (default False) not modelled; the model follows branch fix-C07 (F3 length test, "
-    "non-positive resolution no longer loops forever).  NOT mirrored in the Lean model (inventory of the anchor files): geom.py — "
-    "chop_along_antimeridian / projected_lon (shapely split: a parameter `chop` of toCrsFull), maybe_fix / Geometry.filter / dropna / "
-    "buffer(0) (check_and_fix=True; oracle only), _auto_resolution's sqrt(area)*4/100 (parameter autoRes), lonlat_bounds (safe/quick "
-    "wrap logic), mid_longitude, Geometry.geojson/simplify/explore, shapely's interpolate/length beyond the EdgeOk contract; crs.py — "
-    "_make_crs_transform's id()-keyed cache and _crs_cache (histories are oracle-only: churn, always_xy), the scalar / tuple branch "
-    "of transformer_to_crs (no harmonisation there), crs_units_per_degree, CRS.utm/_pick_best_crs, valid_region.",
+    "geometry for an arbitrary proj.  Second part (Model/C07Fix): to_crs with EVERY option (wrapdateline x geographic target x "
+    "resolution x check_and_fix): _multigeom and the Multi* branch of clip_lon180 (type / part structure kept for every kind, "
+    "every GeometryCollection make-up included; as found it failed on empty Multi*: _cex + repair), chop dispatch, "
+    "Geometry.filter / dropna (only accepted vertices survive, none invented, type kept; shapely's ring construction as "
+    "validated reference semantics), maybe_fix, lonlat_bounds (entry dispatch, safe / quick wrap rule: sorted, never wider, "
+    "ends are input longitudes up to a turn), mid_longitude, Geometry.geojson with its collection recursion (every member "
+    "rendered with the same resolution / wrapdateline; over the reals every rendered member is the projection of a geometry "
+    "without an edge longer than the resolution).  Tied to /repo by an exact correspondence on dyadic inputs (vertex lists, "
+    "loop counts, all geometry kinds, every option combination with a stand-in exact projection that also fails like pyproj "
+    "does, public entry points Geometry.filter / to_crs / geojson / lonlat_bounds / mid_longitude / multigeom / clip_lon180) "
+    "and by oracles on real outputs (max edge length, retention, collinearity, area/length, vertex-by-vertex equality with a "
+    "fresh pyproj Transformer for every kind and option combination, per-member densification of geojson, there-and-back error).",
+    "note": "Trusted: Lean kernel + {propext, Classical.choice, Quot.sound}; shapely length/interpolate contract (EdgeOk), shapely "
+    "is_valid / buffer(0) / intersects / split / centroid / simplify and pyproj numerics are parameters (is_valid is observed on the "
+    "real run and handed to the model; round-trip precision is sampled, not proved); IEEE rounding not modelled; the model follows "
+    "/repo main incl. ee68993 (clip_lon180 on empty Multi*), the harness probes which variant the tree has.  Known findings: "
+    "densify([]) is an IndexError, so segmented / to_crs(resolution) / geojson(resolution) fail on geometries with an empty member "
+    "(modelled as found; key densify-raises-on-empty-geometry).  As found and modelled, not repaired (outside the valid areas the "
+    "property quantifies over): Geometry.filter / dropna / check_and_fix raise ValueError when only 1-2 vertices of a polygon shell or "
+    "ring survive and GEOSException when the shell is gone but a hole survives (theorem filter_few_left_raises).  NOT mirrored in the "
+    "Lean model (inventory of the anchor files): geom.py — projected_lon (float32 arange, pyproj) and the shapely split behind "
+    "chop_along_antimeridian (parameters hit / split; the correspondence only sends geometries that are not chopped), "
+    "_auto_resolution's sqrt(area) (witness s in autoResOf), Geometry.simplify / explore, shapely's interpolate/length beyond the "
+    "EdgeOk contract; crs.py — _make_crs_transform's id()-keyed cache and _crs_cache (histories are oracle-only: churn, always_xy), "
+    "the scalar / tuple branch of transformer_to_crs (no harmonisation there: exercised through the stand-in projection that fails in "
+    "one coordinate), crs_units_per_degree, CRS.utm/_pick_best_crs, valid_region.",
     "technique": "Lean 4 proof over hand model + differential correspondence with real code",
     "design_ref": "DESIGN.md §4 C07",
 }
@@ -323,6 +336,54 @@ class Echo:
         if isinstance(x, np.ndarray):
             return x.copy(), y.copy()
         return x, y
+
+
+class fake_transformers:
+    """Install `factory(pyproj_from, pyproj_to) -> object with .transform(x, y)` as the transformer odc-geo uses.
+    Preferred hook: the module-level transformer factory `_make_crs_transform` (keeps `transformer_to_crs` and its NaN
+    harmonisation in the loop); when that private name does not exist (renamed / inlined by a refactor) the public
+    `CRS.transformer_to_crs` is replaced instead and `self.mode == "public"` tells the caller that the harmonisation
+    wrapper is not exercised by this stream."""
+
+    def __init__(self, R: Run, crsmod, factory):
+        self.R, self.crsmod, self.factory = R, crsmod, factory
+        self.mode = "private" if callable(getattr(crsmod, "_make_crs_transform", None)) else "public"
+
+    def __enter__(self):
+        crsmod, factory = self.crsmod, self.factory
+        if self.mode == "private":
+            self.saved = crsmod._make_crs_transform  # pylint: disable=protected-access
+            crsmod._make_crs_transform = lambda a, b, *args, **kw: factory(a, b)  # pylint: disable=protected-access
+        else:
+            self.saved = crsmod.CRS.transformer_to_crs
+            note = "crs._make_crs_transform not found: stand-in transformers installed through the public CRS.transformer_to_crs"
+            if note not in self.R.notes:
+                self.R.notes.append(note)
+
+            def transformer_to_crs(this, other, always_xy=True):
+                tr = factory(this.proj, other.proj)
+                return lambda x, y, **kw: tr.transform(x, y, **kw)
+
+            crsmod.CRS.transformer_to_crs = transformer_to_crs
+        return self
+
+    def __exit__(self, et, ev, tb):
+        if self.mode == "private":
+            self.crsmod._make_crs_transform = self.saved  # pylint: disable=protected-access
+        else:
+            self.crsmod.CRS.transformer_to_crs = self.saved
+        return False
+
+
+def pyproj_of(crs):
+    """the pyproj object behind an odc CRS (public `.proj`)"""
+    return crs.proj
+
+
+def auto_resolution_of(gm, g):
+    """`_auto_resolution(g)`; when the private helper is gone, its documented value sqrt(area) * 4 / 100"""
+    fn = getattr(gm, "_auto_resolution", None)
+    return fn(g) if callable(fn) else math.sqrt(g.area) * 4 / 100
 
 
 # --------------------------------------------------------------------------- generators
@@ -742,13 +803,10 @@ def run_to_crs_model(R: Run):
     rng = R.rng
     pool = Pool(False)
     ents = pool.entries[:6]
-    saved = crsmod._make_crs_transform  # pylint: disable=protected-access
-
-    def fake_make(from_crs, to_crs, always_xy):
+    def fake_make(from_crs, to_crs):
         return Fake(pool._obj[id(from_crs)], pool._obj[id(to_crs)])  # pylint: disable=protected-access
 
-    crsmod._make_crs_transform = fake_make  # pylint: disable=protected-access
-    try:
+    with fake_transformers(R, crsmod, fake_make):
         from shapely import geometry as sg
 
         for rnd in range(R.pick(4, 24)):
@@ -777,7 +835,7 @@ def run_to_crs_model(R: Run):
                         else:
                             rv = "auto"
                             try:
-                                av = gm._auto_resolution(g)  # pylint: disable=protected-access
+                                av = auto_resolution_of(gm, g)
                             except Exception:  # pylint: disable=broad-except
                                 av = None
                             if av is None or not math.isfinite(av):
@@ -825,14 +883,15 @@ def run_to_crs_model(R: Run):
                             out = box["out"]
                             R.oracle(skel_of(out.geom) == skel_of(shp) and out.crs == et[2], "to-crs-changes-structure", case,
                                      f"{skel_of(shp)} -> {skel_of(out.geom)}, crs {out.crs}")
-    finally:
-        crsmod._make_crs_transform = saved  # pylint: disable=protected-access
 
     # NaN harmonisation of the transformer (numpy-array branch), transformer replaced by an echo
     import numpy as np
 
-    crsmod._make_crs_transform = lambda a, b, always_xy: Echo()  # pylint: disable=protected-access
-    try:
+    echo = fake_transformers(R, crsmod, lambda a, b: Echo())
+    if echo.mode != "private":
+        R.notes.append("NaN harmonisation stream skipped: no module-level transformer factory to put the echo transformer behind")
+        return
+    with echo:
         tr = pool.entries[1][2].transformer_to_crs(pool.entries[2][2])
         vals = [0.0, 1.5, -2.0, float("nan")]
         for n in range(0, 4):
@@ -854,8 +913,6 @@ def run_to_crs_model(R: Run):
                     okh = all((("nan" in p) == (p == "nan;nan")) for p in out.strip("[]").split(",") if p)
                     R.oracle(okh, "transformer-half-nan-point", {"xs": xs.tolist(), "ys": ys.tolist()},
                              f"transformer returned a point with exactly one NaN coordinate: {out}", trivial=True)
-    finally:
-        crsmod._make_crs_transform = saved  # pylint: disable=protected-access
 
 
 REGIONS = {
@@ -1457,10 +1514,8 @@ def run_growth(R: Run):
             R.corr(f"c07 sides {pts_s(shp.exterior.coords)}", fs, sig="sides")
 
     # ---- wrapdateline tail of to_crs and BoundingBox.to_crs, with the exact stand-in projection as transformer
-    saved = crsmod._make_crs_transform  # pylint: disable=protected-access
-    crsmod._make_crs_transform = lambda a, b, always_xy: Fake(pool._obj[id(a)], pool._obj[id(b)])  # pylint: disable=protected-access
     eps_tok = frac_s(Fraction(180) - Fraction(180 - 1e-4))
-    try:
+    with fake_transformers(R, crsmod, lambda a, b: Fake(pool._obj[id(a)], pool._obj[id(b)])):  # pylint: disable=protected-access
         for rnd in range(R.pick(2, 16)):
             kinds, r0 = shapes_for(rng, "axis" if rnd % 2 == 0 else "pyth") if rnd % 2 else multipart_for(rng)
             for kind, shp in kinds.items():
@@ -1514,8 +1569,6 @@ def run_growth(R: Run):
 
                     R.corr(f"c07 bboxtocrs {pool.rec(es[2])} {pool.rec(et[2])} {'N' if res is None else frac_s(res)} "
                            f"{frac_s(l)} {frac_s(b)} {frac_s(r_)} {frac_s(t_)}", fb, sig="bboxtocrs|" + ("none" if es[2] is None or et[2] is None else "ok"))
-    finally:
-        crsmod._make_crs_transform = saved  # pylint: disable=protected-access
 
 
 def run_extreme_ratio(R: Run):
@@ -1637,9 +1690,11 @@ def run_numeric_spellings(R: Run):
 def run(R: Run):
     import time
 
+    from .c07_options import run_options
+
     timing = {}
-    for fn in (run_densify, run_segmented, run_to_crs_model, run_growth, run_float_stream, run_to_crs_pyproj, run_extreme_ratio,
-               run_numeric_spellings):
+    for fn in (run_densify, run_segmented, run_to_crs_model, run_growth, run_options, run_float_stream, run_to_crs_pyproj,
+               run_extreme_ratio, run_numeric_spellings):
         t0 = time.time()
         fn(R)
         timing[fn.__name__] = round(time.time() - t0, 2)
@@ -1661,6 +1716,11 @@ def replay(R: Run, rec) -> int:
     print("replay case:", case, "key:", key)
     fn = case.get("fn")
     try:
+        from .c07_options import replay_options
+
+        rc = replay_options(R, rec)
+        if rc >= 0:
+            return rc
         if fn == "densify":
             coords = [tuple(p) for p in case["coords"]]
             r = case["resolution"]
